@@ -123,9 +123,16 @@ pub fn observe_all_sinks(a: &dyn Aml) -> SinkObs {
         sdt.append_slice(&vec);
     }
     let sdt_bytes = sdt.as_slice().to_vec();
+    // both ways of obtaining an empty builder must behave alike as a sink
     let mut pb = PackageBuilder::new();
     a.to_aml_bytes(&mut pb);
-    let pb_bytes = to_vec(&pb);
+    let mut pb_bytes = to_vec(&pb);
+    let mut pbd = PackageBuilder::default();
+    a.to_aml_bytes(&mut pbd);
+    if to_vec(&pbd) != pb_bytes {
+        pb_bytes = to_vec(&pbd); // report the deviating one
+        pb_bytes.push(0xEE); // and make sure it cannot be mistaken for the expected stream
+    }
     // PackageBuilder image: 12 PkgLength NumElements(0) data...
     let pkg_tail = strip_package_builder(&pb_bytes);
     SinkObs {
